@@ -493,6 +493,18 @@ impl<T: Transport, E: UtpEnvironment> Dispatcher<T, E> {
                     self.verif_tab("connect_refused_full", addr, self.next_connection_id);
                     return;
                 }
+                // Don't send a SYN that we would not be able to track: the peer would accept it
+                // and get a connection that nobody owns on this side.
+                if self
+                    .connecting
+                    .get(&addr)
+                    .is_some_and(|c| c.len == MAX_CONNECTING_PER_ADDR)
+                {
+                    // This is super rare, can be warn.
+                    warn!("too many concurrent connectins to {addr}");
+                    let _ = sender.tx.send(Err(Error::TooManyActiveConnections));
+                    return;
+                }
                 let conn_id = self.get_next_free_conn_id(addr);
                 let header = UtpHeader {
                     htype: Type::ST_SYN,
